@@ -244,6 +244,16 @@ def generate():
         "sig = ecdsa.Signature(r, s)",
         "if self.pubkey.verifies(number, sig):\n    return True",
         "raise BadSignatureError('Signature verification failed')"]])
+    f = find_func(k, "from_public_point", cls="VerifyingKey")
+    if ast.unparse(f.args) != "cls, point, curve=NIST192p, hashfunc=sha1, validate_point=True":
+        raise Unsupported("from_public_point: parameters/defaults changed")
+    match("VerifyingKey.from_public_point", f.body, [(x, []) for x in [
+        "self = cls(_error__please_use_generate=True)",
+        "if not isinstance(point, ellipticcurve.PointJacobi):\n    point = ellipticcurve.PointJacobi.from_affine(point)",
+        "self.curve = curve", "self.default_hashfunc = hashfunc",
+        "try:\n    self.pubkey = ecdsa.Public_key(curve.generator, point, validate_point)\nexcept ecdsa.InvalidPointError:\n"
+        "    raise MalformedPointError('Point does not lay on the curve')",
+        "self.pubkey.order = curve.order", "return self"]])
     f = find_func(k, "verify", cls="VerifyingKey")
     if ast.unparse(f.args) != "self, signature, data, hashfunc=None, sigdecode=sigdecode_string, allow_truncate=True":
         raise Unsupported("verify: parameters/defaults changed")
